@@ -143,3 +143,12 @@ Definition pool_final (v : wvariant) (p : pool_cfg) (starts : list Z) (offs : li
   if p_per_instance p then
     map (fun s => snd (run_steps v (instance_discard p) s (map (fun o => is_free s + o) offs))) sts
   else shared_final v (instance_discard p) sts (map (fun o => hd 0 starts + o) offs).
+
+(* ---------------------------------------------------------------------------------------- *)
+(* Judging a run against the CONFIGURED profile without knowing which instance took which token:
+   at any instant no more requests have been started (fired or reported discarded) than tokens
+   of the profile were due.  [toks] = the configured token times, [ats] = the instants of the
+   shots. *)
+Definition due_by (x : Z) (l : list Z) : nat := length (filter (fun t => t <=? x) l).
+Definition never_ahead_b (toks ats : list Z) : bool :=
+  forallb (fun x => (due_by x ats <=? due_by x toks)%nat) ats.
